@@ -38,10 +38,13 @@ def assert_repo():
         raise RuntimeError("openaerostruct imported from %s, not from %s" % (f, REPO))
 
 
+SYMBOLIC_PI = [True]
+
+
 @contextlib.contextmanager
-def patched(symbolic_pi=True):
+def patched(symbolic_pi=None):
     """rebind np (and the scipy names) in every loaded openaerostruct module to the shim; restore afterwards"""
-    shim = npshim.make(symbolic_pi)
+    shim = npshim.make(SYMBOLIC_PI[0] if symbolic_pi is None else symbolic_pi)
     saved = []
     for name, mod in list(sys.modules.items()):
         if mod is None or not (name == "openaerostruct" or name.startswith("openaerostruct.")):
